@@ -43,7 +43,7 @@ REQUIRED_BUCKETS = {"quick": ["op:call_kernel", "op:call_Fq", "op:direct", "op:s
                               "op:release_model", "op:reload", "shared_kernel_interleaving", "toggle:dispersity",
                               "toggle:magnetic", "repeat_identical", "big_then_small", "empty_or_one_point_mesh",
                               "python_model", "composite_model", "q_shares_one_axis_with_previous",
-                              "q_shares_first_point_with_previous", "reff_mode_on_then_off"]}
+                              "q_shares_first_point_with_previous", "reff_mode_on_then_off", "lane:asan"]}
 REQUIRED_BUCKETS["thorough"] = REQUIRED_BUCKETS["quick"]
 
 HERE = os.path.dirname(os.path.abspath(__file__))
@@ -391,6 +391,9 @@ def gen_cases(tier, seed):
     for h in range(nhist):
         cases.append({"id": "hist/%04d" % h, "kind": "history", "h": h, "seed": seed, "table": flat,
                       "group": "h%d" % (h % 64), "cost": 1.0})
+    for h in range(4 if tier == "quick" else 48):
+        cases.append({"id": "asan/%04d" % h, "kind": "history", "h": 100000 + h, "seed": seed, "table": flat,
+                      "group": "a%d" % (h % 8), "cost": 6.0, "lane": "asan"})
     return cases
 
 
@@ -473,6 +476,8 @@ def run_history(case, rec):
     prev = None
     seen_kernel = {}
     held = []
+    lane_asan = os.environ.get("RTM_LANE") == "asan"
+    rec.bucket("lane:" + ("asan" if lane_asan else "plain"))
     for step, (op, arg) in enumerate(ops):
         rec.bucket("op:" + ("call_kernel" if op == "eval" and reqs[arg]["via"] == "call_kernel" else
                             "call_Fq" if op == "eval" and reqs[arg]["via"] == "call_Fq" else
@@ -491,6 +496,10 @@ def run_history(case, rec):
             if kept:
                 held.append((step, arg, kept[0], got))
             exp = table[arg]
+            if lane_asan:
+                # the sanitizer build uses another compiler, so the fresh-process table (bit patterns of the normal
+                # build) does not apply; the reference is the same request on fresh objects in this process
+                exp = evaluate(State(), req)
             ok = (got == exp)
             rec.check("same_bytes_as_fresh_process", ok,
                       None if ok else {"step": step, "request": arg, "history": ops[:step + 1][-12:],
